@@ -253,7 +253,22 @@ def judgeExtra2 (hNew hOld : HCtx) (op res : Array String) (dump : Option St) : 
         let nearVertex := (ctor.any fun c => (List.range s.nV).any fun i => close (s.P i) c) ||
           ((List.range ctor.length).any fun i => (List.range i).any fun j => close (ctor.getD i ⟨0,0⟩) (ctor.getD j ⟨0,0⟩)) ||
           ((List.range s.nV).any fun i => (List.range i).any fun j => close (s.P i) (s.P j))
-        let nv := if nearVertex then " nearVertex=1" else " nearVertex=0"
+        -- signature feature of finding K17: the new constraint runs at an angle below 2^-30 to an
+        -- existing constraint whose bounding box it overlaps (e.g. between two vertices that were
+        -- placed "on" that constraint in floating point): the intersection is ill-conditioned
+        -- beyond the precision of the scalar type
+        let dab : Pt := ⟨pb.x - pa.x, pb.y - pa.y⟩
+        let nab := dab.x * dab.x + dab.y * dab.y
+        let boxOverlap := fun (c : Pt × Pt) =>
+          decide (min c.1.x c.2.x ≤ max pa.x pb.x) && decide (min pa.x pb.x ≤ max c.1.x c.2.x) &&
+          decide (min c.1.y c.2.y ≤ max pa.y pb.y) && decide (min pa.y pb.y ≤ max c.1.y c.2.y)
+        let nearParallel := hOld.abs.cons.any fun c =>
+          let dc : Pt := ⟨c.2.x - c.1.x, c.2.y - c.1.y⟩
+          let cr := dab.x * dc.y - dc.x * dab.y
+          let ncd := dc.x * dc.x + dc.y * dc.y
+          boxOverlap c && decide (cr * cr * 2 ^ (if f32 then 24 else 60) ≤ nab * ncd)
+        let nv := (if nearVertex then " nearVertex=1" else " nearVertex=0") ++
+          (if nearParallel then " nearParallel=1" else " nearParallel=0")
         let f1 := chk (oldVerticesKept s d) "C13" "split-changed-existing-vertex" (fun _ => "")
         let f2 := chk (newIdx.all fun i => ctor.contains (d.P i) && d.data.getD i 0 == 777000) "C13"
           "split-vertex-not-from-constructor" (fun _ => s!"new={newIdx.length} ctor={ctor.length}")
